@@ -5,7 +5,6 @@ import (
 	"sync"
 
 	simchannel "perun.network/go-perun/backend/sim/channel"
-	simwallet "perun.network/go-perun/backend/sim/wallet"
 	"perun.network/go-perun/channel"
 
 	"verif/sim/gen"
@@ -46,7 +45,7 @@ func (Engine) execC13concurrent(sc *kernel.Scenario, res *kernel.Result, trace b
 	n := int(sc.Cfg("states", 8))
 	var encs [][]byte
 	for len(encs) < n {
-		id := simchannel.AppID{Address: simwallet.NewRandomAddress(r)}
+		id := simchannel.AppID{Address: gen.DetAddress("c13conc", int64(r.Uint64()>>2))}
 		if !oddKey(id) {
 			continue
 		}
